@@ -519,7 +519,7 @@ def g8_sse2_schedule(prog, rep):
         for k in range(4):
             for b in range(4):
                 for j in range(8):
-                    want.append(frozenset([(("w", k), 8 * (3 - b) + j)]))
+                    want.append(frozenset([(simd.intern(("w", k)), 8 * (3 - b) + j)]))
         rep.check(R == want, "G8-sse2", "mm_bswap_epi32 reverses the bytes of each 32-bit lane", g.loc, "", function=g.name, construct="bswap")
     except simd.CannotEvaluate as ex:
         rep.bad("G8-sse2", "mm_bswap_epi32 reverses the bytes of each 32-bit lane", g.loc, "the function could not be evaluated exactly: %s" % ex, function=g.name, construct="bswap")
@@ -607,6 +607,56 @@ def g8_sse2_schedule(prog, rep):
               problems[0][1] if problems else "block loads: %d (4 expected), schedule steps: %d (12), stores to W: %d (16)" % (counts["load"], counts["msg4"], counts["store"]),
               function=t.name, construct="flow")
     return n
+
+
+def g9_shani_transform(prog, rep):
+    """The SHA-NI transform *is* SHA-256's compression function, for every state and block: the whole function is evaluated
+    symbolically (sa/simd.py: shuffles, byte shuffles, alignr, unpacks over GF(2); lane additions as canonical multisets; Ch and Maj
+    as opaque word terms built from canonical lanes; SHA256RNDS2 / SHA256MSG1 / SHA256MSG2 by their definitions in the Intel SDM,
+    which are trusted) and the eight words it stores are compared with FIPS 180-4 section 6.2.2 evaluated by the same constructors:
+    big-endian block words, the message schedule, sixty-four rounds with the constants derived here (C01's table), feed-forward."""
+    from .. import simd
+    from . import c01
+    up = "alg/sha256_shani.c"
+    if up not in prog.units:
+        return 0
+    u = prog.unit(up)
+    f = u.func("SHA256_Transform_shani")
+    if f is None:
+        raise cdb.AnalysisBroken("anchor missing: SHA256_Transform_shani")
+    pn = {p["name"]: ("v", p["name"], p["id"]) for p in f.params}
+    if "state" not in pn or "block" not in pn:
+        raise cdb.AnalysisBroken("SHA256_Transform_shani no longer has the parameters state and block")
+    ev = simd.Evaluator(u)
+    ev.stores = []
+    try:
+        ev.run(f, [("ptr", "state", 0, 4), ("ptr", "blk", 0, 1)])
+    except simd.CannotEvaluate as ex:
+        rep.bad("G9-shani", "SHA256_Transform_shani is the SHA-256 compression function", f.loc, "the function could not be evaluated exactly: %s" % ex,
+                function=f.name, construct="transform")
+        return 1
+    got = {}
+    for ptr, val, e in ev.stores:
+        if isinstance(ptr, tuple) and ptr and ptr[0] == "ptr" and ptr[1] == "state" and ptr[2] % 4 == 0:
+            for i, l in enumerate(simd.lanes32(val)):
+                got[ptr[2] // 4 + i] = l
+    # FIPS 180-4 with the same constructors
+    W = []
+    for t in range(16):
+        blk = simd.intern(("blk", t))
+        W.append(tuple(frozenset([(blk, 8 * (3 - b) + j)]) for b in range(4) for j in range(8)))
+    for t in range(16, 64):
+        W.append(simd.schedule_word(W, t))
+    st0 = tuple(simd.word(simd.intern(("state", i))) for i in range(8))
+    st = st0
+    for t in range(64):
+        st = simd.sha256_round(st, [W[t], simd.const_lane(c01.SHA256_K[t])])
+    want = [simd.add_lanes(st0[i], st[i]) for i in range(8)]
+    wrong = [i for i in range(8) if got.get(i) != want[i]]
+    rep.check(not wrong and len(got) == 8, "G9-shani", "SHA256_Transform_shani is the SHA-256 compression function", f.loc,
+              "state words %s stored by the function differ from FIPS 180-4's (exact symbolic evaluation of all sixty-four rounds and the schedule; %d of 8 words stored)"
+              % (wrong, len(got)), function=f.name, construct="transform")
+    return 1
 
 
 def g6_cursor(prog, rep):
@@ -704,6 +754,7 @@ def run(tier):
             g6_cursor(prog, rep)
             g7_schedule(prog, rep)
             g8_sse2_schedule(prog, rep)
+            g9_shani_transform(prog, rep)
             # ... and its sixty-four rounds and round constants are FIPS 180-4's (C01's rules on the sibling's own copy of them)
             if "alg/sha256_sse2.c" in prog.units:
                 from . import c01 as _c01
